@@ -88,7 +88,11 @@ def kind_table(ctx, idx, rule):
             elif not any(q.endswith("ParameterNotValid") for q in rec["own_raises"]) and rec["own_raises"]:
                 wrong_err.append(k)
         con = "%s::%s.clean::rejects-wrong-kinds" % (K.rel(fi), cname)
-        if accepted:
+        if wrong_err and not accepted:
+            errs = sorted({q.split(".")[-1] for k in wrong_err for q in S[cname][k]["own_raises"]})
+            ctx.violate(rule, con, K.rel(fi), fi.node.lineno, "%s answers a %s with %s, not with ParameterNotValid: the validation pass dies on a foreign error that names neither the offending value nor its line, instead of rejecting the argument" % (
+                cname, ", ".join(kind_text(k) for k in wrong_err), "/".join(errs)))
+        elif accepted:
             ctx.violate(rule, con, K.rel(fi), fi.node.lineno, "%s accepts a %s (returns %s) instead of raising ParameterNotValid: a mistyped argument is silently coerced and the model runs" % (
                 cname, ", ".join(kind_text(k) for k in accepted), "/".join(sorted(set().union(*[S[cname][k]["returns"] for k in accepted])))))
         else:
@@ -224,7 +228,8 @@ def run(ctx, idx):
     if ok:
         t = [t for t in c.find("test") if any(c.dominates(t, r) for r in rz)]
         isabs = [t for t in t if "isabs" in t.text()]
-        wd = [t for t in t if "working_dir" in xsrc(t.ast)]
+        # the working-directory test decides the raise without having to dominate it (`program is None or program.working_dir is None`)
+        wd = [t_ for t_ in c.find("test") if "working_dir" in xsrc(t_.ast) and any(r in c.reachable([t_]) for r in rz) and any(c.dominates(i_, t_) for i_ in isabs)]
         if not isabs or not wd:
             ok = False
             why = "InvalidRelativePath is not raised exactly for a relative path with no working directory"
@@ -249,6 +254,16 @@ def run(ctx, idx):
     rets = [n for n in own_nodes(dt.node) if isinstance(n, ast.Return)]
     ok = any(K.src(r.value).replace(" ", "") == "%s.valid_types[%s]" % (K.self_name(dt), val) for r in rets if r.value is not None)
     ctx.ob("C20.e", "%s::name-to-type" % dt.key, K.rel(dt), dt.node.lineno, ok, "names map through valid_types[value]" if ok else "a data-type name is not mapped through valid_types[value]")
+    # list items: every item is unwrapped and goes through the declared value type, on every return
+    from . import coverage as _cov
+
+    lp_ = idx.cls("mpilot.params", "ListParameter").methods.get("clean")
+    if lp_ is None:
+        raise AnalysisError("ListParameter.clean vanished")
+    okl, whyl, linel = _cov.list_clean_total(idx, lp_)
+    if okl is None:
+        raise AnalysisError("C20.e: %s" % whyl)
+    ctx.ob("C20.e", "%s::items-through-value-type" % lp_.key, K.rel(lp_), linel, okl, whyl)
     # number strings: int(text) first, float(text) as the fallback, each applied to the raw text itself
     per = S["NumberParameter"]["str"]
     np_ = idx.find_method(idx.cls("mpilot.params", "NumberParameter"), "clean")
